@@ -95,7 +95,9 @@ def choi_to_kraus(
 
     """
     d_in, d_out, _ = channel_dim(choi_mat, dim=dim, compute_env_dim=False)
-    if is_hermitian(choi_mat):
+    # The eigen-decomposition branch assumes one operator shape for both sides: it only applies to maps between
+    # square operator spaces (a Hermitian Choi matrix of a map M_{r,c} -> M_{x,y} goes through the SVD branch).
+    if d_in[0] == d_in[1] and d_out[0] == d_out[1] and is_hermitian(choi_mat):
         eigvals, v_mat = np.linalg.eigh(choi_mat)
         kraus_0 = [
             np.sqrt(abs(eigval)) * unvec(evec, shape=(d_out[0], d_in[0]))
